@@ -355,7 +355,19 @@ class HTTPRequestParser:
             if not ONLY_DIGIT_RE.match(cl.encode("latin-1")):
                 raise ParsingError("Content-Length is invalid")
 
-            cl = int(cl)
+            try:
+                cl = int(cl)
+            except ValueError:
+                # int() refuses digit strings longer than
+                # sys.get_int_max_str_digits(); all digits, so only the
+                # length can be the problem
+                cl = cl.lstrip("0")
+
+                if len(cl) > 30:
+                    # more than any body that could ever be accepted
+                    cl = max(self.adj.max_request_body_size, 1)
+                else:
+                    cl = int(cl or "0")
             self.content_length = cl
 
             if cl > 0:
